@@ -77,6 +77,9 @@ PROPS = {
     "C15": dict(pkg="c15", level="exploration",
                 quick=[R(checks=2500)],
                 thorough=[R(checks=10000, shards=16, timeout=1800)]),
+    "C18": dict(pkg="c18", level="exploration",
+                quick=[R(checks=4000)],
+                thorough=[R(checks=20000, shards=16, timeout=1800)]),
     "C20": dict(pkg="c20", level="exploration",
                 quick=[R(checks=12000, timeout=900)],
                 thorough=[R(checks=40000, shards=16, timeout=2400), F("FuzzPath", 120), F("FuzzJSONIntent", 150), F("FuzzXML", 120)]),
